@@ -61,7 +61,11 @@ pub open spec fn reserved_package_name(n: Seq<char>) -> bool { n == "Builtin"@ }
 // ---- separate::read_source_files (the same two clauses for the check / build drivers) ----
 #[verifier::external_body] pub fn strs_eq(a: &str, b: &str) -> (r: bool) ensures r == (a@ == b@) { unimplemented!() }
 #[verifier::external_body] pub fn str_ne_string(a: &String, b: &str) -> (r: bool) ensures r == (a@ != b@) { unimplemented!() }
-#[verifier::external_body] pub fn sorted_dedup_paths(v: &Vec<PathBuf>) -> (r: Vec<PathBuf>) { unimplemented!() }       // to_vec(); sort(); dedup()
+#[verifier::external_body] pub fn sorted_dedup_paths(v: &Vec<PathBuf>) -> (r: Vec<PathBuf>) ensures paths_sorted(r@) { unimplemented!() }       // to_vec(); sort(); dedup()
+// the input paths with duplicates removed but in LISTING order (a filter over a seen-set, an IndexSet, ..): nothing is known about their order
+#[verifier::external_body] pub fn listing_order_paths(v: &Vec<PathBuf>) -> (r: Vec<PathBuf>) { unimplemented!() }
+// the paths of the files handed on, in the order they were processed
+pub open spec fn paths_of(files: Seq<SourceFileAst>) -> Seq<PathBuf> { files.map_values(|f: SourceFileAst| f.path) }
 #[verifier::external_body] pub fn import_set_add(s: &mut HashSet<String>, ast: &AstFile) { unimplemented!() }          // for import in ast.imports.iter() { s.insert(import.0.clone()); }
 #[verifier::external_body] pub fn new_import_set() -> (r: HashSet<String>) { unimplemented!() }
 #[verifier::external_body] pub fn path_display(p: &PathBuf) -> (r: String) { unimplemented!() }
